@@ -1970,6 +1970,7 @@ static void subpipe_case(struct vh_rng *r)
 
 #include "lifecycle.inc.c"
 #include "fsrc.inc.c"
+#include "blit.inc.c"
 
 static void run_case(struct vh_rng *r)
 {
@@ -1986,6 +1987,7 @@ static void run_case(struct vh_rng *r)
         if (vh_want_sample()) vh_sample("%s", vh_trace);
         return;
     }
+    if (mode == MODE_C20 && only_pipe < 0 && vh_chance(r, 1, 10)) { c20_blit_case(r); if (vh_want_sample()) vh_sample("%s", vh_trace); return; }
     if (mode == MODE_C20 && only_pipe < 0 && vh_chance(r, 1, 10)) { c20_fsrc_case(r); if (vh_want_sample()) vh_sample("%s", vh_trace); return; }
     if (mode == MODE_C12) { c12_case(r); if (vh_want_sample()) vh_sample("%s", vh_trace); return; }
     if (mode == MODE_C14 && only_pipe < 0 && vh_chance(r, 1, 3)) { c14_cutting_case(r); if (vh_want_sample()) vh_sample("%s", vh_trace); return; }
